@@ -193,7 +193,7 @@ CHECKS = {
                      'the stress part (real goroutines, no hooks) is not reproducible from the seed'],
     ),
     'C06': dict(
-        spec=['FpVerif.Spec.C06', 'FpVerif.Spec.C06Sound', 'FpVerif.Spec.C06Live', 'FpVerif.Spec.C06Chain', 'FpVerif.Spec.C06Drain'],
+        spec=['FpVerif.Spec.C06', 'FpVerif.Spec.C06Sound', 'FpVerif.Spec.C06Live', 'FpVerif.Spec.C06Chain', 'FpVerif.Spec.C06Drain', 'FpVerif.Spec.C06Once'],
         harnesses=[H('future', 'oracle_future', 3000, 150000, spec_level=True, project=project_future)],
         level='proof',
         level_note='trusted: Lean kernel (propext/Classical.choice/Quot.sound only); model fidelity checked by correspondence (statuses of every future, '
@@ -208,7 +208,8 @@ CHECKS = {
                    'applicative_sound_every_schedule; supplier_task_sound (a supplier runs only with the successful values of all earlier positions). '
                    'Spec/C06Drain.lean: the queue ALWAYS drains — every sequence of task runs from any reachable net is finite (runs_terminate, no_infinite_run; multiset/hydra ordering over the structural order of continuations, '
                    'Mathlib WellFounded.cutExpand), every strategy that keeps picking an existing task empties the queue, and then every promise holds exactly the value of its expression (eventually_exact). '
-                   'Not proved: absence of failed Complete attempts on derived promises; '
+                   'Spec/C06Once.lean: exactly one completer per pending derived promise in every reachable net (exactly_one_completer) and no Complete call of the library ever fails (derived_complete_never_fails). '
+                   'Not proved: '
                    'futures of futures (Flatten/LiftM) are outside the first-order fragment of the theorems — covered by the correspondence and direct checks.',
         modelled='future.go (Promise cell, OnComplete, Future methods Map/FlatMap/Recover*/Or/OrFuture/Failed), future/future_op.go (Successful, Failed, '
                  'Apply/Apply2, FlatMap, Map, Map2, Zip, Zip3/LiftA3, LiftM via Flatten(Map), Compose, Method1, FlapMap, Transform, TransformWith, Sequence, '
